@@ -33,6 +33,9 @@ mod sealed {
     pub(super) allocated: AtomicU32,
     pub(super) min_segment_size: AtomicU32,
     pub(super) discarded: AtomicU32,
+    /// explicit tail padding, always zero: the header is written into the ARENA (and into files)
+    /// by value, and implicit padding would carry whatever was on the stack
+    _padding: u32,
   }
 
   impl super::super::sealed::Header for Header {
@@ -43,6 +46,7 @@ mod sealed {
         sentinel: SegmentNode::sentinel(),
         min_segment_size: AtomicU32::new(min_segment_size),
         discarded: AtomicU32::new(0),
+        _padding: 0,
       }
     }
 
